@@ -29,6 +29,7 @@ void sym_in_rewind();
 bool sym_out_equal(unsigned long a0, unsigned long a1, unsigned long b0, unsigned long b1);
 void sym_out_reset();
 void sym_out_clear();
+void sym_out_truncate(unsigned long n);
 void sym_out_read(void* dst, unsigned long pos, unsigned long n);
 void sym_out_write(const void* src, unsigned long pos, unsigned long n);
 void sym_set_truncation();
